@@ -167,6 +167,94 @@ async def _run(loop, spec, skews, latency, disturb):
     return out
 
 
+LOCK_STATES = {"fresh": [], "user-only": ["USER alice"], "logged": ["USER bob"], "logged-pa": ["USER bob", "CWD /pa"], "alice": ["USER alice", "PASS secret"]}
+# the same VERB in the same instant, each session on its own paths ({i} = session number, {p} = its directory)
+LOCK_CMDS = ["PWD", "MKD /{p}/zz{i}", "CWD /{p}", "MLST /{p}/f.bin", "RNFR /{p}/f.bin", "DELE /{p}/sub/x.txt", "EPSV", "TYPE I", "PASS secret", "REST 5"]
+
+
+async def _lockstep(loop, states, cmd, who):
+    """sessions prepared into different states send the SAME command line in the same instant"""
+    wd = W.World(loop, USERS, server_kwargs={"block_size": 64})
+    await wd.start()
+    out = {}
+    try:
+        wd.set_tree(TREE)
+        clients = []
+        for st in states:
+            c = await wd.raw_client()
+            for line in LOCK_STATES[st]:
+                await W.run_line(wd, c, line.encode())
+            clients.append(c)
+        n0 = [len(c.replies) for c in clients]
+        t0 = wd.tree()
+        for i in who:
+            line = cmd.replace("{i}", str(i)).replace("{p}", "pa" if i == 0 else "pb")
+            clients[i].send_raw(line.encode() + b"\r\n")  # written back to back, nothing awaited in between
+        await loop.settle()
+        await asyncio.sleep(1.5)
+        await loop.settle()
+        for i in who:
+            c = clients[i]
+            conn = wd.connection_of(c)
+            ok, cwd = wd._get(conn, "current_directory") if conn is not None else (False, None)
+            out[i] = {"codes": [x for x, _ in c.replies[n0[i] :]], "cwd": str(cwd) if ok else None, "alive": conn is not None}
+        out["tree_changed"] = wd.tree() != t0
+        out["tree"] = wd.tree()
+        for c in clients:
+            c.close()
+        await loop.settle()
+    finally:
+        try:
+            await wd.stop()
+        except Exception:
+            wd.finish()
+    return out
+
+
+def _lock_job(args):
+    try:
+        return simnet.run(_lockstep, *args)
+    except BaseException as e:  # noqa
+        return "HARNESS-ERROR %s: %s" % (type(e).__name__, e)
+
+
+def lockstep_check(ctx, res):
+    import itertools
+
+    states = list(LOCK_STATES)
+    jobs = []
+    for a, b in itertools.permutations(states, 2):
+        for cmd in LOCK_CMDS:
+            jobs.append(((a, b), cmd, (0, 1)))  # together
+            jobs.append(((a, b), cmd, (0,)))  # A alone (B only prepared)
+            jobs.append(((a, b), cmd, (1,)))  # B alone
+    mp = multiprocessing.get_context("fork")
+    with mp.Pool(min(16, os.cpu_count() or 4)) as pool:
+        outs = pool.map(_lock_job, jobs, chunksize=8)
+    table = dict(zip([(j[0], j[1], j[2]) for j in jobs], outs))
+    for (sts, cmd, who), o in table.items():
+        if who != (0, 1):
+            continue
+        res.cases += 1
+        res.count("kind=lockstep")
+        if isinstance(o, str):
+            res.disagreements.append({"correspondence": "lockstep harness", "input": [sts, cmd], "impl": o})
+            continue
+        res.distinct.add(("lockstep", sts, cmd))
+        for i in (0, 1):
+            solo = table.get((sts, cmd, (i,)))
+            if isinstance(solo, str) or solo is None:
+                continue
+            if o[i]["codes"] != solo[i]["codes"] or o[i]["cwd"] != solo[i]["cwd"]:
+                res.oracle_failures.append({
+                    "input": {"kind": "lockstep", "states": list(sts), "command": cmd, "session": i},
+                    "what": "session %d (state %r) sending %r at the same instant as a session in state %r got %r / cwd %r; alone it gets %r / cwd %r"
+                    % (i, sts[i], cmd, sts[1 - i], o[i]["codes"], o[i]["cwd"], solo[i]["codes"], solo[i]["cwd"]),
+                    "signature": "C17:lockstep-differs-from-solo",
+                })
+                break
+
+
 def run_one(spec, skews, latency=0.0, disturb=None):
     loop = SC.ILoop()
     asyncio.set_event_loop(loop)
@@ -276,6 +364,7 @@ def _check(ctx):
                     "signature": "C17:interleaved-differs-from-solo" + (":" + disturb[0] if disturb else ""),
                 })
                 break
+    lockstep_check(ctx, res)
     res.samples = [{"sessions": SPECS[0], "start_skews": [0, 17], "backend_latency": 0.0}, {"sessions": SPECS[4], "start_skews": [0, 8, 11], "backend_latency": 0.003}]
     return res
 
@@ -301,6 +390,14 @@ def search(ctx, prior):
 
 def replay(ctx, doc):
     inp = doc["failure"]["input"]
+    if inp.get("kind") == "lockstep":
+        sts = tuple(inp["states"])
+        both = _lock_job((sts, inp["command"], (0, 1)))
+        solo = _lock_job((sts, inp["command"], (inp["session"],)))
+        print("together:", both)
+        print("alone   :", solo)
+        i = inp["session"]
+        return both[i]["codes"] != solo[i]["codes"] or both[i]["cwd"] != solo[i]["cwd"]
     spec = [tuple(x) for x in inp["sessions"]]
     dist = tuple(inp["disturbance"]) if inp.get("disturbance") else None
     o = run_one(spec, inp["start_skews"], inp["backend_latency"], dist)
